@@ -37,6 +37,10 @@ pub struct Weights {
     pub burst: u32,
     /// stored snapshots pruned behind a client's back (only where divergence is not judged)
     pub vanish: u32,
+    /// `add_members` may re-invite a member that was removed earlier (not where the chain oracle
+    /// judges every former member: a member removed by a commit that later loses the race and then
+    /// re-invited on that branch is the listed O22 situation in a new guise)
+    pub reinvite: bool,
 }
 
 impl Default for Weights {
@@ -68,6 +72,7 @@ impl Default for Weights {
             solo_group: 0,
             burst: 0,
             vanish: 0,
+            reinvite: false,
         }
     }
 }
@@ -124,7 +129,7 @@ pub fn op_strategy(w: &Weights) -> BoxedStrategy<Op> {
     ));
     v.push((
         w.add,
-        (m, ts.clone(), ap.clone(), prop_oneof![3 => Just(0u8), 1 => Just(1u8)])
+        (m, ts.clone(), ap.clone(), if w.reinvite { prop_oneof![3 => Just(0u8), 1 => Just(1u8), 2 => Just(2u8)].boxed() } else { prop_oneof![3 => Just(0u8), 1 => Just(1u8)].boxed() })
             .prop_map(|(m, ts, apply, extra)| Op::Add { m, ts, apply, extra })
             .boxed(),
     ));
